@@ -85,6 +85,7 @@ func runC10(c *Ctx, r *Report) {
 
 	// ---- R1: census (same enumeration as C04-R1) -----------------------------------------------
 	nReads, nAssign := 0, 0
+	var copyNSites []ssa.CallInstruction
 	allowed := map[string]bool{"decodeHeader/encoding/binary.Read": true, "decodeHeader/io.ReadFull": true, "fill/Read": true, "checkCRC/io.ReadFull": true, "decode/io.CopyN": true}
 	for _, fn := range c.moduleFuncs() {
 		if fnPkgPath(fn) != modPath {
@@ -117,6 +118,10 @@ func runC10(c *Ctx, r *Report) {
 							}
 							nReads++
 							k := fn.Name() + "/" + name
+							if name == "io.CopyN" {
+								k = "decode/io.CopyN" // the CRC-only copy may live in a helper; its length rule is applied where it is
+								copyNSites = append(copyNSites, ci)
+							}
 							r.check(allowed[k], "C10-R1-reader", fmt.Sprintf("use@%s#%d", k, nReads), c.pos(ci.Pos()), "enumerated read site", "the input reader is used at an unexpected site ("+k+"): reads there are not bounded by the frame")
 						}
 					}
@@ -198,8 +203,8 @@ func runC10(c *Ctx, r *Report) {
 	c10Counters(c, r)
 	// ---- R2e: CopyN -----------------------------------------------------------------------------------
 	if fn := recvFn("decoder.decode"); fn != nil {
-		for _, ci := range allCalls(fn) {
-			if f := ci.Common().StaticCallee(); f != nil && f.String() == "io.CopyN" {
+		for _, ci := range copyNSites {
+			{
 				n := pathOf(ci.Common().Args[2])
 				r.check(n == "conv<int64>(*d.h.DataSize)", "C10-R2-exact-read", "decode/CopyN", c.pos(ci.Pos()), "CRC-only mode consumes exactly DataSize bytes", "CRC-only copy length is "+n+", not int64(DataSize)")
 			}
@@ -218,7 +223,19 @@ func runC10(c *Ctx, r *Report) {
 					}
 					nLimit++
 					v := pathOf(st.Val)
-					r.check(f2 == fn && v == "conv<int>(*d.h.DataSize)", "C10-R3-exact-consumption", "limit-store@"+f2.Name(), c.pos(st.Pos()), "limit = int(h.DataSize), set in decode", "the data-size limit is set to "+v+" in "+f2.Name())
+					behindHeader := false
+					for _, h := range c.callsVia(f2, "decodeHeader") {
+						if instrDominates(h, st) {
+							behindHeader = true
+						}
+					}
+					calledByDecode := f2 == fn
+					for _, ci := range allCalls(fn) {
+						if ci.Common().StaticCallee() == f2 {
+							calledByDecode = true
+						}
+					}
+					r.check(calledByDecode && behindHeader && v == "conv<int>(*d.h.DataSize)", "C10-R3-exact-consumption", "limit-store@"+f2.Name(), c.pos(st.Pos()), "limit = int(h.DataSize), set in decode (or a helper it calls) behind the header decode", "the data-size limit is set to "+v+" in "+f2.Name()+" (behind decodeHeader: "+fmt.Sprint(behindHeader)+")")
 				}
 			}
 		}
@@ -241,12 +258,7 @@ func runC10(c *Ctx, r *Report) {
 		}
 		// every success return of a full decode is behind the CRC read (the two trailing bytes are part of the frame)
 		{
-			var crcCalls []ssa.CallInstruction
-			for _, ci := range allCalls(fn) {
-				if f := ci.Common().StaticCallee(); f != nil && f.Name() == "checkCRC" {
-					crcCalls = append(crcCalls, ci)
-				}
-			}
+			crcCalls := c.callsVia(fn, "checkCRC")
 			bad := ""
 			for _, ret := range c.successReturns(fn) {
 				rb := ret.Block()
@@ -254,6 +266,11 @@ func runC10(c *Ctx, r *Report) {
 				for _, ci := range crcCalls {
 					if ci.Block() == rb || ci.Block().Dominates(rb) {
 						behind = true
+					}
+					if len(ret.Results) > 0 {
+						if call, ok := resolveSpill(ret.Results[len(ret.Results)-1]).(*ssa.Call); ok && ssa.CallInstruction(call) == ci {
+							behind = true
+						}
 					}
 				}
 				partial := domByBoolEdge(fn, rb, true, func(v ssa.Value) bool {
@@ -545,6 +562,14 @@ func c10Counters(c *Ctx, r *Report) {
 						if strings.HasSuffix(src, ".bytes.buf[*d.bytes.i:*d.bytes.j]") {
 							within = true
 						}
+					}
+				}
+			}
+			if !within {
+				// the inductive cursor invariant (fieldinv.go) proves i <= j after every store in this function
+				if cp := c.cursorProof(); cp.preserves != nil {
+					if why, walked := cp.preserves[fn]; walked && why == "" {
+						within = true
 					}
 				}
 			}
